@@ -16,7 +16,8 @@ CONSTANTS Class,        \* "SA" | "SAM" | "ANY" : class of the hidden games enum
           MaxChg,       \* knowledge changes allowed between two computes
           AllowReset,   \* BOOLEAN: include bulk resets to arbitrary knowledge sets
           CheckTight,   \* BOOLEAN: evaluate the C02 invariants
-          CheckEdges    \* BOOLEAN: evaluate the C07 edge invariant at fresh states
+          CheckEdges,   \* BOOLEAN: evaluate the C07 edge invariant at fresh states
+          CheckBrute    \* BOOLEAN: evaluate the brute-force completion invariant (C02, small lattices only)
 
 \* named values for .cfg files (a cfg cannot contain negative literals)
 Vm1to1 == {-1, 0, 1}
@@ -111,6 +112,24 @@ UpperAttained == (AtFresh /\ comp # "sam" /\ CheckTight /\ Class = "SA") =>
                    \A c \in Coals \ K :
                       LET w == UpperWitness(c, K, hid)
                       IN  IsSuperadditive(w) /\ AgreesOn(w, K, hid) /\ w[c] = tab.up[c]
+
+\* brute force, independent of BestPartition and of the algorithm: every integer superadditive
+\* completion in the box widened by one unit on each side lies inside the box, and the box is attained.
+Completions ==
+  LET U == Coals \ K
+      lo1 == Min({tab.lo[c] : c \in U}) - 1
+      up1 == Max({tab.up[c] : c \in U}) + 1
+  IN  { w \in [U -> lo1..up1] :
+          /\ \A c \in U : w[c] >= tab.lo[c] - 1 /\ w[c] <= tab.up[c] + 1
+          /\ IsSuperadditive([c \in Coals |-> IF c \in U THEN w[c] ELSE hid[c]]) }
+AllCompletionsInside ==
+  (AtFresh /\ comp # "sam" /\ CheckBrute /\ Class = "SA" /\ K # Coals) =>
+     \A c \in Coals \ K :
+        /\ Min({ w[c] : w \in Completions }) = tab.lo[c]
+        /\ Max({ w[c] : w \in Completions }) = tab.up[c]
+
+\* ---- C03 the two SA computers agree on every table, stale rows included
+Interchangeable == (stage = "play" /\ MinimalKnown(tab)) => ComputeSA(tab) = ComputeSACached(tab)
 
 \* ---- C04 SAM self-consistency
 SamNotLooser == (AtFresh /\ comp = "sam" /\ Class = "SAM") =>
